@@ -131,6 +131,9 @@ def main():
         # a deformation that is not an X/Z swap (XY: Y<->Z) under noise with r_x = r_z != r_y
         ((0.1, 0.8, 0.1), 'XY', {}, 0.25, [('Planar2DCode', (2, 2)), ('RotatedPlanar2DCode', (2, 3)), ('Toric2DCode', (2, 2))],
          lambda c, e, p: MatchingDecoder(c, e, p), 'Matching'),
+        # whole numbers written as Python ints (direction with int 0, error rate int 1), deformed
+        ((0, 0.5, 0.5), 'XZZX', {}, 1, [('Planar2DCode', (2, 2)), ('RotatedPlanar2DCode', (3, 3))],
+         lambda c, e, p: MatchingDecoder(c, e, p), 'Matching'),
         # deformations that depend on the POSITION of a qubit, not only on its orientation (rhombic, colour codes)
         ((0.75, 0.0, 0.25), 'Checkerboard XZZX', {}, 0.2, [('RhombicPlanarCode', (2, 2, 1))],
          lambda c, e, p: BeliefPropagationOSDDecoder(c, e, p, max_bp_iter=8, osd_order=0), 'BP-OSD'),
